@@ -1,8 +1,8 @@
 SPECIFICATION Spec
-CONSTANT Part = "recv"
-CONSTANT Depth = 4
+CONSTANT Part = "send"
+CONSTANT Depth = 3
 CONSTANT AutoAccept = FALSE
 CONSTANT Pipe = 4194304
-CONSTANT Buf = 1
+CONSTANT Buf = 256
 INVARIANT Emit
 CHECK_DEADLOCK FALSE
